@@ -236,6 +236,9 @@ func main() {
 		}
 	}
 	e1.RunAll(r, scenarios, 0)
+	if r.Worker == "" && r.Replay == "" {
+		e1.Conformance(r)
+	}
 	r.Rule("full cross product of 6 target-controller configurations x 6 protocol strings x 4 bind addresses x 3 broadcast settings x bystander controller x constructor (1728 configurations), each x 32 operations x controllers {silent, answering} as environment choices; distinct = distinct (transport, destination, answered) labels")
 	r.Assume("reference routing function route() in this file, written from the property statement; protocol strings other than exactly \"tcp\" mean UDP")
 	r.Assume("simulated network: source address = bind address, ephemeral port when the bind port is 0")
